@@ -60,6 +60,8 @@ type RollScn struct {
 	FaultDir []string   `json:"dir_faults,omitempty"` // C14: readdir | info | remove failures
 	Static   string     `json:"static,omitempty"`     // C19b: file-closed | file-unstarted | console-fails
 	ViaLogger bool      `json:"via_logger,omitempty"` // C14: the sibling pair is built by a RollingFileLogger (separate=true)
+	MaxAge2  int        `json:"max_age_sibling,omitempty"` // C14: retention of the sibling .wf appender when it differs from the first one's
+	Restart14 bool      `json:"restart_before,omitempty"` // C14: the appender object is stopped and started again before the run
 	Name     string     `json:"file_name,omitempty"`  // C13: file name of the appender (default app.log)
 	Touch    bool       `json:"touch,omitempty"`      // C14: an outside party refreshes the modification time of old files during the run
 	ViaAppend bool      `json:"via_append,omitempty"` // C13: every other write is an event handed to Append, stamped by the application's clock (TimeNow hook), not the wall clock
@@ -1045,6 +1047,10 @@ func (c14) Gen(rt *rapid.T, thorough bool) any {
 		s.Touch = false
 		return s
 	}
+	s.Restart14 = !s.ViaLogger && rapid.IntRange(0, 3).Draw(rt, "restart14") == 0
+	if s.Separate && !s.ViaLogger && rapid.Bool().Draw(rt, "max_age2") {
+		s.MaxAge2 = rapid.SampledFrom([]int{1, 24, 720, 10000}).Draw(rt, "max_age2_v")
+	}
 	s.Touch = rapid.IntRange(0, 3).Draw(rt, "touch") == 0
 	if s.Touch && rapid.Bool().Draw(rt, "touch_preset") && len(s.Pop) > 0 {
 		// the case the touch is about: an own file a little younger than MaxAge, touched while the
@@ -1140,8 +1146,18 @@ func (c14) Run(x *Exec, scn any) {
 		if err := a.Start(); err != nil {
 			panic("harness: " + err.Error())
 		}
+		if s.Restart14 {
+			// a restarted appender object is an appender like any other
+			a.Stop()
+			if err := a.Start(); err != nil {
+				panic("harness: " + err.Error())
+			}
+		}
 		if s.Separate {
 			wf = newRolling(s, rollName+".wf")
+			if s.MaxAge2 > 0 {
+				wf.MaxAge = int32(s.MaxAge2) // every appender applies its own retention to its own files
+			}
 			if err := wf.Start(); err != nil {
 				panic("harness: " + err.Error())
 			}
@@ -1241,6 +1257,10 @@ func (c14) Run(x *Exec, scn any) {
 		// the .wf files belong to the sibling appender; it only cleans up when it rotates itself
 		// (never in the logger-built variant, where it stays idle)
 		own := !pf.Dir && (ownRe.MatchString(pf.Name) || (s.Separate && !s.ViaLogger && ownWfRe.MatchString(pf.Name)))
+		maxAge := maxAge
+		if s.MaxAge2 > 0 && ownWfRe.MatchString(pf.Name) {
+			maxAge = time.Duration(s.MaxAge2) * time.Hour
+		}
 		mt := mtimeOf(pf)
 		tt, wasTouched := touched[pf.Name]
 		if wasTouched {
